@@ -6,12 +6,13 @@ import Ctrmml.Proofs.MdsInv
 namespace Ctrmml.Mds
 open Ctrmml Ctrmml.Player Tables
 
-/-- the subroutine and macro maps only grow -/
-def SubMono (c c' : Conv) : Prop := (∀ p ∈ c.subMap, p ∈ c'.subMap) ∧ (∀ p ∈ c.macroMap, p ∈ c'.macroMap)
+/-- the subroutine and macro maps only grow, and so does `used_data_map` (`get_envelope` appends) -/
+def SubMono (c c' : Conv) : Prop :=
+  (∀ p ∈ c.subMap, p ∈ c'.subMap) ∧ (∀ p ∈ c.macroMap, p ∈ c'.macroMap) ∧ c.usedData.length ≤ c'.usedData.length
 
-theorem SubMono.refl (c : Conv) : SubMono c c := ⟨fun _ h => h, fun _ h => h⟩
+theorem SubMono.refl (c : Conv) : SubMono c c := ⟨fun _ h => h, fun _ h => h, Nat.le_refl _⟩
 theorem SubMono.trans {a b c : Conv} (h1 : SubMono a b) (h2 : SubMono b c) : SubMono a c :=
-  ⟨fun p h => h2.1 p (h1.1 p h), fun p h => h2.2 p (h1.2 p h)⟩
+  ⟨fun p h => h2.1 p (h1.1 p h), fun p h => h2.2.1 p (h1.2.1 p h), Nat.le_trans h1.2.2 h2.2.2⟩
 
 structure WInv (song : Song) (d : DataInfo) (n : Nat) : Prop where
   hook : ∀ c w it c' w' L P, Inv song d c (w.out :: L) P → Mds.hook song d n c w it = .ok (c', w') →
@@ -79,11 +80,12 @@ theorem hook_succ_inv {song : Song} {d : DataInfo} (hpc : PlatformClean d) (n : 
     exact ⟨inv_cover_sub h2 _ hmem ⟨mds_PAT, u16 (k : Int)⟩ (List.mem_append_right _ (List.mem_append_right _ List.mem_cons_self)) (Or.inl ⟨subKey_mod_jump _ _, rfl, rfl⟩), hmono⟩
   | data key ty arg w' pre hf hout hpre _ =>
     rw [hout]
-    refine ⟨inv_data hinv key ty arg pre hpre hf, ?_, ?_⟩
+    refine ⟨inv_data hinv key ty arg pre hpre hf, ?_, ?_, ?_⟩
     · intro p hp
       rw [(getEnvelope_spec c key hinv.maps).2.2.1]; exact hp
     · intro p hp
       rw [(getEnvelope_spec c key hinv.maps).2.2.2.1]; exact hp
+    · exact (getEnvelope_spec c key hinv.maps).2.2.2.2.1
   | mtab c' id w' pre _ _ hg hout hpre =>
     obtain ⟨k, rfl, hi, _, hlt, hmono⟩ := ih.mac c _ c' id (w.out :: L) P hinv hg
     rw [hout, List.append_assoc]
@@ -223,7 +225,8 @@ theorem sub_succ_inv {song : Song} {d : DataInfo} (n : Nat) (ih : WInv song d n)
         · show c.subList.length < (c2.subList.set c.subList.length w.out).length
           rw [List.length_set]
           exact hold_lt (hi2.holdS _ (by simp))
-        · exact ⟨fun p hp => hm2.1 p (by rw [hc1]; simp [hp]), fun p hp => hm2.2 p (by rw [hc1]; exact hp)⟩
+        · exact ⟨fun p hp => hm2.1 p (by rw [hc1]; simp [hp]), fun p hp => hm2.2.1 p (by rw [hc1]; exact hp),
+            by have := hm2.2.2; rw [hc1] at this; exact this⟩
 
 theorem mac_succ_inv {song : Song} {d : DataInfo} (n : Nat) (ih : WInv song d n) :
     ∀ c t c' id L P, Inv song d c L P → getMacroTrack song d (n + 1) c t = .ok (c', id) →
@@ -263,13 +266,14 @@ theorem mac_succ_inv {song : Song} {d : DataInfo} (n : Nat) (ih : WInv song d n)
           intro hc
           have := hold_lt (hinv.holdM _ hc)
           omega
-        have hmem2 := hm2.2 _ hmem1
+        have hmem2 := hm2.2.1 _ hmem1
         have h3 := inv_mac_set hi2 hnot t hmem2 ⟨evs, n, 20000000, c1, c2, w, htr, hr, rfl⟩
         refine ⟨c.macroList.length, rfl, h3, hmem2, ?_, ?_⟩
         · show c.macroList.length < (c2.macroList.set c.macroList.length w.out).length
           rw [List.length_set]
           exact hold_lt (hi2.holdM _ (by simp))
-        · exact ⟨fun p hp => hm2.1 p (by rw [hc1]; exact hp), fun p hp => hm2.2 p (by rw [hc1]; simp [hp])⟩
+        · exact ⟨fun p hp => hm2.1 p (by rw [hc1]; exact hp), fun p hp => hm2.2.1 p (by rw [hc1]; simp [hp]),
+            by have := hm2.2.2; rw [hc1] at this; exact this⟩
 
 
 /-- the invariant is carried by all four functions, for every fuel -/
